@@ -645,7 +645,7 @@ func c17Scenarios(tier string) []c17Scenario {
 				if c%4 == 0 {
 					// an unreported id sharing the checkpoint key, all of it stale
 					z := c17Entry{DB: lay.dbs[0], Name: c17NameOld, ID: c17IDZ, Offset: 7777, AgeNs: S + int64(time.Hour)}
-					add(c17Scenario{Label: lab + "/stale-id", Op: "gc-cron", Local: c17NameOld, Hash: [][2]string{{c17IDZ, c17NameOld}, {c17IDA, c17NameOld}}, Entries: append(append([]c17Entry(nil), es...), z), Extra: lay.extra})
+					add(c17Scenario{Label: lab + "/stale-id", Op: "gc-cron", Local: c17NameOld, Hash: [][2]string{{c17IDA, c17NameOld}, {c17IDZ, c17NameOld}}, Entries: append(append([]c17Entry(nil), es...), z), Extra: lay.extra})
 				}
 				if c%5 == 0 {
 					add(c17Scenario{Label: lab, Op: "gc-del", Local: c17NameOld, Hash: [][2]string{{c17IDA, c17NameOld}}, Entries: es, Extra: lay.extra})
